@@ -377,3 +377,17 @@ Theorem C12_source_pose_jacobian_is_derivative : forall l t (c : nat -> nat -> R
     src_pose_map l t c q i = pose_map l t q i.
 Proof. exact source_pose_jacobian_is_derivative. Qed.
 Print Assumptions C12_source_pose_jacobian_is_derivative.
+
+(* --- the open known finding stated about the GENERATED terms: what dRdAngleAroundX/Y/ZAxis() return (members dRdAngleX_/Y_/Z_
+       after the constructor and init) is the true derivative of R plus the identity leftover of C12_extra_terms, never the
+       derivative itself; R() is Rz*Ry*Rx --- *)
+Theorem C12_source_smart_derivative_leftover : forall x y z,
+  (src_smart_ctor_dRdAngleX ROps x y z = madd3 ROps (dRdX_true x y z) (extraX x y z) /\
+   src_smart_ctor_dRdAngleY ROps x y z = madd3 ROps (dRdY_true x y z) (extraY x y z) /\
+   src_smart_ctor_dRdAngleZ ROps x y z = madd3 ROps (dRdZ_true x y z) (extraZ x y z)) /\
+  (src_smart_ctor_dRdAngleX ROps x y z <> dRdX_true x y z /\
+   src_smart_ctor_dRdAngleY ROps x y z <> dRdY_true x y z /\
+   src_smart_ctor_dRdAngleZ ROps x y z <> dRdZ_true x y z) /\
+  src_smart_ctor_R ROps x y z = rot_zyx x y z.
+Proof. exact source_smart_derivative_leftover. Qed.
+Print Assumptions C12_source_smart_derivative_leftover.
